@@ -34,17 +34,28 @@ typedef enum {
 #define atomic_load_explicit(addr, order) (*(addr))
 #define atomic_store_explicit(addr, val, order) (*(addr) = (val))
 
-#define atomic_fetch_add(obj, val) (*(obj) += (val))
-#define atomic_fetch_sub(obj, val) (*(obj) -= (val))
-#define atomic_fetch_or(obj, val) (*(obj) |= (val))
-#define atomic_fetch_xor(obj, val) (*(obj) ^= (val))
-#define atomic_fetch_and(obj, val) (*(obj) &= (val))
+// atomic_fetch_* return the value the object held before the operation.
+#define __atomic_fetch_op(obj, val, op)                                \
+  ({                                                                   \
+    __typeof__(obj) __ptr = (obj);                                     \
+    __typeof__(val) __val = (val);                                     \
+    __typeof__(*__ptr) __old = *__ptr;                                 \
+    while (!__builtin_compare_and_swap(__ptr, &__old, __old op __val)) \
+      ;                                                                \
+    __old;                                                             \
+  })
 
-#define atomic_fetch_add_explicit(obj, val, order) (*(obj) += (val))
-#define atomic_fetch_sub_explicit(obj, val, order) (*(obj) -= (val))
-#define atomic_fetch_or_explicit(obj, val, order) (*(obj) |= (val))
-#define atomic_fetch_xor_explicit(obj, val, order) (*(obj) ^= (val))
-#define atomic_fetch_and_explicit(obj, val, order) (*(obj) &= (val))
+#define atomic_fetch_add(obj, val) __atomic_fetch_op(obj, val, +)
+#define atomic_fetch_sub(obj, val) __atomic_fetch_op(obj, val, -)
+#define atomic_fetch_or(obj, val) __atomic_fetch_op(obj, val, |)
+#define atomic_fetch_xor(obj, val) __atomic_fetch_op(obj, val, ^)
+#define atomic_fetch_and(obj, val) __atomic_fetch_op(obj, val, &)
+
+#define atomic_fetch_add_explicit(obj, val, order) __atomic_fetch_op(obj, val, +)
+#define atomic_fetch_sub_explicit(obj, val, order) __atomic_fetch_op(obj, val, -)
+#define atomic_fetch_or_explicit(obj, val, order) __atomic_fetch_op(obj, val, |)
+#define atomic_fetch_xor_explicit(obj, val, order) __atomic_fetch_op(obj, val, ^)
+#define atomic_fetch_and_explicit(obj, val, order) __atomic_fetch_op(obj, val, &)
 
 #define atomic_compare_exchange_weak(p, old, new) \
   __builtin_compare_and_swap((p), (old), (new))
